@@ -20,8 +20,8 @@ func init() {
 				"(tables) the HelloRetryRequest random equals the RFC 8446 value and IsHelloRetryRequest compares ServerHello.random with it, read at the right offset; internal/hpke's AEAD table has Nk/Nn of RFC 9180 7.3 for ids 1,2,3, the KEM table Nsecret 32 for 0x0020, the KDF table id 1, and the labels fed to LabeledExtract/LabeledExpand are exactly the RFC 9180 labels; " +
 				"(route) ServerName/ALPNProtos/ECHAccepted report the inner hello's values exactly when inner != nil, else the outer's; inner/outer are the handler's results; the first flight is inner.Marshal() iff inner != nil; " +
 				"(hrr) the HelloRetryRequest path stays armed: rules M1-M3 of C06 (counter incremented only for an HRR, retry mode entered for the next ClientHello record, read side not switched to passthrough by anything but application_data - for example not by the compatibility change_cipher_spec a real client sends before its second hello); " +
-				"(stale) a hello that does not decrypt leaves the processor with errNoMatch, which the handler swallows, and nothing in the key loop aborts before a successful decryption, so the outer hello reaches the public-name server; " +
-				"(recsize) the record length limit is 2^14+256 in both directions with a buffer to match (rule B1 of C07: a 40 KB certificate chain produces full-size protected records). " +
+				"(inner) the reconstruction rules S1-S5 of C03 (a resumption handshake fails if the referenced outer extensions are not spliced in exactly where the marker stood); (stale) a hello that does not decrypt leaves the processor with errNoMatch, which the handler swallows, and nothing in the key loop aborts before a successful decryption, so the outer hello reaches the public-name server; " +
+				"(pipe) passthrough reads and writes go straight to the underlying connection, and only when nothing is buffered (bytes of an incomplete record are never bypassed); (recsize) the record length limit is 2^14+256 in both directions with a buffer to match (rule B1 of C07: a 40 KB certificate chain produces full-size protected records). " +
 				"Not decided: that a handshake actually completes for any client/backend configuration, PSK resumption interop, key-share sizes, application data flow - those need two executing TLS stacks.",
 		},
 		Rules: c01Rules,
@@ -43,10 +43,14 @@ func c01Rules(p *core.Prog, r *core.Run) {
 	c01Route(p, r, m, "C01.route")
 	// hrr
 	c06State(p, r, m, "C01.hrr")
+	// the reconstructed inner hello is exact (extension order matters: pre_shared_key must stay last)
+	c03Splice(p, r, m, "C01.inner")
 	// stale
 	keyLoopExits(p, r, m, "C01.stale")
 	// recsize
 	recordLimit(p, r, m, "C01.recsize")
+	// application data flows: passthrough is direct and never bypasses buffered bytes
+	c05Direct(p, r, m, "C01.pipe")
 }
 
 // c01Accessors checks ServerName, ALPNProtos, ECHAccepted.
